@@ -342,6 +342,11 @@ class _DeviceManagementConnection(ABC):
                             "Discarding cEMI frame not answering the request: %s",
                             answer,
                         )
+                        if self.communication_channel is None:
+                            # closed while the request was being sent - no answer will come
+                            raise CommunicationError(
+                                "Device management connection was closed."
+                            )
                         pending = asyncio.get_running_loop().create_future()
                         self._pending = pending
             except TimeoutError:
